@@ -65,6 +65,10 @@ func (c *Ctx) switchFlag(fn *ssa.Function, depth int) (flag string, found bool, 
 				if p, ok := call.Call.Args[2].(*ssa.Parameter); !ok || p != fn.Params[len(fn.Params)-1] {
 					return "", true, "the state argument is not forwarded unchanged to setState"
 				}
+				// the switch is driven on every path: no exit can bypass the call
+				if !c.switchOnEveryPath(fn, call) {
+					return "", true, "a return path bypasses setState: the switch can be silently ignored"
+				}
 				flags = append(flags, c.flagName(v))
 			} else if depth < 2 && c.p.inPkg(cal) && cal.Signature.Recv() != nil && len(call.Call.Args) == len(fn.Params) && len(fn.Params) == 2 {
 				// forwarding alias: same receiver, same variadic parameter
@@ -74,6 +78,9 @@ func (c *Ctx) switchFlag(fn *ssa.Function, depth int) (flag string, found bool, 
 					}
 					if p, isP := call.Call.Args[1].(*ssa.Parameter); !isP || p != fn.Params[1] {
 						return "", true, "alias does not forward its state argument unchanged"
+					}
+					if !c.switchOnEveryPath(fn, call) {
+						return "", true, "a return path bypasses the switch this alias forwards to"
 					}
 					flags = append(flags, f)
 				}
@@ -87,6 +94,27 @@ func (c *Ctx) switchFlag(fn *ssa.Function, depth int) (flag string, found bool, 
 		return "", true, "drives several flags: " + strings.Join(flags, ",")
 	}
 	return flags[0], true, ""
+}
+
+// switchOnEveryPath: every return path of fn has executed call, except paths on
+// which the receiver is known to be uninitialised (setState ignores those anyway).
+func (c *Ctx) switchOnEveryPath(fn *ssa.Function, call *ssa.Call) bool {
+	fa := c.eng.analyze(fn, nil)
+	callT := c.eng.tt.mk(Term{K: "V", V: call})
+	init := c.initAtom()
+	for _, rs := range fa.rets {
+		if rs.st.dead {
+			continue
+		}
+		if did, _ := rs.st.get(aDID, callT); did {
+			continue
+		}
+		if is, known := init.eval(fa, rs.st); known && !is {
+			continue
+		}
+		return false
+	}
+	return true
 }
 
 func (c *Ctx) ruleSwitchTable() {
